@@ -163,6 +163,17 @@ func (f *Frame) instr(b *ssa.BasicBlock, ins ssa.Instruction, st *State) {
 		f.vals[x] = v
 	case *ssa.ChangeInterface:
 		v := f.val(x.X, st)
+		ts := g.sorts.sortOf(x.Type())
+		if v.Term != "" && v.Sort != ts && v.Ptr == nil {
+			// e.g. error -> interface{}: box the value
+			if ts == "Err" {
+				n := g.fresh(f.name(x), "Err")
+				f.vals[x] = Val{Sort: "Err", Term: n, GoT: x.Type()}
+				return
+			}
+			f.vals[x] = Val{Sort: ts, Term: g.fresh(f.name(x), ts), Tuple: []Val{v}, GoT: x.Type()}
+			return
+		}
 		v.GoT = x.Type()
 		f.vals[x] = v
 	case *ssa.MakeInterface:
